@@ -6,24 +6,27 @@ PROP = 'C12'
 IMPORTS = 'Model.Abi Model.Intrinsic Corr.C12'
 KINDS = ('COMP', 'DECOMP', 'PLACE')
 
-# implementation-level oracle classes that are recorded defects of the unchanged tree (known_findings.d/C12.json)
+# implementation-level oracle classes with a name of their own (see known_findings.d/C12.json for their status)
 ORACLE_CLASS = {
     'narrowing': 'c12-narrowing', 'bs-zero': 'c12-bs-zero', 'call-typing': 'c12-call-typing',
     'intrinsic-padding': 'c12-intrinsic-padding', 'nulless-furibug': 'c12-nulless-furibug',
 }
-# switches of the generated table: (Coq term, class when false, what, repro input of findings/repro)
+# switches of the generated table: (Coq term, violation class when false, what, repro input of findings/repro).
+# The first four were defects of the unchanged tree, repaired in /repo (known_findings.d/C12.json: fixed); a switch that goes
+# back to false is a regression and a violation.  The last one is still open.
 FLAGS = [
     ('all_checked gen_codec', 'c12-narrowing',
-     'an integer argument that does not fit its 1- or 2-byte field (or the 16-bit timeline arg0) is stored truncated, exit status 0 '
-     '(`as _` in encode_args); theorem C12_no_silent_change_refuted', 'f06_narrowing_args.anm.spec'),
+     'an integer argument that does not fit its 1- or 2-byte field (or the 16-bit timeline arg0) is stored truncated (`as _` in encode_args): '
+     'side condition all_checked of theorem C12_no_silent_change', 'f06_narrowing_args.anm.spec'),
     ('cd_bs_checked gen_codec', 'c12-bs-zero',
-     'a string signature with bs=0 is accepted and panics in encode_args (remainder by zero); theorem C12_bs_zero_refuted', 'f05_bs_zero.anm.spec'),
+     'a string signature with bs=0 is accepted (encode_args then panics with a remainder by zero): side condition of C12_accepted_call_never_panics',
+     'f05_bs_zero.anm.spec'),
     ('cd_place_with_padding gen_codec', 'c12-intrinsic-padding',
-     'an intrinsic whose signature has padding before its last parameter panics in IntrinsicBuilder::into_vec (index out of bounds); '
-     'theorem C12_intrinsic_placement_refuted', 'f04_intrinsic_padding.anm.spec'),
+     'IntrinsicBuilder::into_vec does not allocate for the positions from_abi computes (panics when padding precedes a parameter): '
+     'side condition of C12_intrinsic_placement_total', 'f04_intrinsic_padding.anm.spec'),
     ('cd_match_skips_padding gen_codec', 'c12-call-typing',
-     'call arguments are matched against all parameters including defaulted padding: with signature S_f the call (1, 2.0) is rejected and '
-     '(1, 2) is accepted and panics in encode_args; theorem C12_call_typing_refuted', 'f13b_padding_param_shift_accepts_invalid.anm.spec'),
+     'call arguments are matched against all parameters including defaulted padding: side condition of C12_accepted_call_never_panics',
+     'f13b_padding_param_shift_accepts_invalid.anm.spec'),
     ('cd_nulless_furibug_rejected gen_codec', 'c12-nulless-furibug',
      'a string parameter with both nulless and furibug is accepted; after a furigana line its text reads back with that line\'s masked bytes '
      'attached (or not at all); theorem C12_nulless_furibug_refuted', None),
